@@ -275,6 +275,7 @@ pub trait TypedIterable {
             let packet = &mut self.parsed_packet_mut().packet_mut();
             packet[offset..offset + new_name_len].copy_from_slice(name);
         }
+        self.parsed_packet_mut().cached = None;
         self.recompute_rr();
 
         Ok(())
@@ -308,6 +309,7 @@ pub trait TypedIterable {
         self.set_offset_next(offset);
         self.invalidate();
         let parsed_packet = self.parsed_packet_mut();
+        parsed_packet.cached = None;
         let rrcount = parsed_packet.rrcount_dec(section)?;
         if rrcount <= 0 {
             let offset = match section {
